@@ -1,7 +1,8 @@
 """C18 - execution of Storage.tla behaviours against the real ImageD11 readers / writers.
 
 A behaviour is the `hist` sequence of a Storage.tla state: hist[0] = {"op":"init","sd":[i,j]} (seed
-objects of o1, o2), hist[1:] = operations {"op","o","p","g"}.  `Runner` executes it with real
+objects of o1, o2), hist[1:] = operations {"op","o","p","g"} (Nudge: the model's edit of an object in memory,
+executed by copying the model's new values into the real columns).  `Runner` executes it with real
 temporary files; after every step `observe()` projects the *real* state (files on disk parsed by
 this module's own small parsers / h5py, objects in memory through their public attributes) onto
 the same canonical form as `canon_world()` gives for the model's world, and `diff()` compares.
@@ -79,6 +80,8 @@ def classify(raw):
 
 
 def pytype(v):
+    if isinstance(v, np.ndarray) and v.ndim == 0:       # a 0-d array carries one scalar
+        v = v[()]
     if isinstance(v, (bool, np.bool_)):
         return ("bool", bool(v))
     if isinstance(v, (int, np.integer)):
@@ -88,7 +91,7 @@ def pytype(v):
     if isinstance(v, bytes):
         return ("bytes", v)
     if isinstance(v, str):
-        return ("str", v)
+        return ("str", str(v))          # (numpy.str_ -> str)
     return (type(v).__name__, repr(v))
 
 
@@ -321,10 +324,10 @@ def grain_proj(g):
     ii = getattr(g, "intensity_info", None)
     return {"ubi": [float(v) for v in np.asarray(g.ubi).ravel()],
             "tr": None if g.translation is None else [float(v) for v in np.asarray(g.translation).ravel()],
-            "name": None if nm is None else _dec(nm).rstrip(),
+            "name": None if nm is None else str(_dec(nm)).rstrip(),
             "npks": None if npks is None else int(_dec(npks)),
             "nuniq": None if nuniq is None else int(_dec(nuniq)),
-            "ii": None if ii is None else _dec(ii).rstrip()}
+            "ii": None if ii is None else str(_dec(ii)).rstrip()}
 
 
 def observe_hdf(path):
@@ -422,12 +425,64 @@ SPARSE_DTYPES = [{"i": "<i4", "f": "<f8", "itype": "uint16"},
                  {"i": "|u1", "f": "<f4", "itype": "int32"}]
 
 
-def build_obj(x, family, vals=None, coldt=None, spdt=None):
-    """x = raw model object (json).  vals: optional function (path, modelval) -> python number used by
+# the model's typed parameter values say "int" / "float" / "str" and nothing about the python TYPE that
+# carries them (Storage.tla header: covariance in the value kind).  One kind per history; every kind has
+# the same str() spelling as the python value, so the model's worlds are expected unchanged:
+#   py    python int / float / str
+#   np64  numpy.float64 / numpy.int64 / numpy.str_ scalars (what numpy arithmetic, a refinement return)
+#   0d    0-d float64 / int64 arrays (numpy.array(x)); strings numpy.str_ (h5py stores no 0-d unicode array)
+#   np32  numpy.float32 where the value is a binary32 number whose shortest spelling denotes it (else
+#         numpy.float64), numpy.int32 where it fits (else numpy.int64), numpy.str_
+# Strings are numpy.str_ on the text routes only (header parameters, parameter files) and only inside the
+# domain (strings that do not spell a number: dumbtypecheck re-examines exact str objects only); h5py has no
+# conversion for numpy.str_ (sparse meta attributes raise TypeError, grain.to_h5py_group swallows it and
+# drops the name: c18_extra.value_kinds notes both, they are not judged).
+PAR_KINDS = ["py", "np64", "0d", "np32"]
+
+
+def kinded(v, pk, strs=True):
+    """python value (int / float / str, bool excluded) -> the same value carried by the kind pk"""
+    if pk == "py" or isinstance(v, bool):
+        return v
+    if isinstance(v, str):
+        if not strs:
+            return v
+        try:
+            float(v)
+            return v
+        except ValueError:
+            return np.str_(v)
+    if isinstance(v, int):
+        if pk == "0d":
+            return np.array(v, np.int64)
+        if pk == "np32" and -2 ** 31 <= v < 2 ** 31:
+            return np.int32(v)
+        return np.int64(v)
+    if isinstance(v, float):
+        if pk == "0d":
+            return np.array(v, np.float64)
+        if pk == "np32":
+            with np.errstate(over="ignore"):
+                f = np.float32(v)
+            if float(f) == v and float(str(f)) == v:
+                return f
+        return np.float64(v)
+    raise TypeError(type(v))
+
+
+def build_obj(x, family, vals=None, coldt=None, spdt=None, pk="py", count=None):
+    """x = raw model object (json).  pk: PAR_KINDS entry, the kind of every parameter-like value (header
+    parameters, parameter dictionaries, sparse meta attributes, grain names and peak counts); count: a
+    one element list, incremented per value built with the kind.  vals: optional function (path, modelval) -> python number used by
     the widened replay to substitute arbitrary doubles for the model's alphabet.  coldt: optional
     function title -> numpy dtype of the in-memory column (default float64).  spdt: SPARSE_DTYPES entry"""
     from ImageD11 import columnfile, parameters, grain, sparseframe
     sub = vals or (lambda where, v, isint: (vint(v) if isint else vfloat(v)))
+
+    def K(v):
+        if count is not None:
+            count[0] += 1
+        return kinded(v, pk, strs=family in ("table", "pars"))
     if family == "table":
         d = {}
         for t in x["titles"]:
@@ -436,10 +491,10 @@ def build_obj(x, family, vals=None, coldt=None, spdt=None):
                 d[t] = d[t].astype(coldt(t))
         cf = columnfile.colfile_from_dict(d)
         for n, tv in D(x["pars"]).items():
-            cf.parameters.set(n, _pyval(tv, sub, ("par", n)))
+            cf.parameters.set(n, K(_pyval(tv, sub, ("par", n))))
         return cf
     if family == "pars":
-        return parameters.parameters(**{n: _pyval(tv, sub, ("par", n)) for n, tv in D(x["pars"]).items()})
+        return parameters.parameters(**{n: K(_pyval(tv, sub, ("par", n))) for n, tv in D(x["pars"]).items()})
     if family == "grains":
         out = []
         for gi, g in enumerate(x["gl"]):
@@ -447,13 +502,13 @@ def build_obj(x, family, vals=None, coldt=None, spdt=None):
             tr = [float(sub(("tr", gi, j), v, False)) for j, v in enumerate(g["tr"])] if len(g["tr"]) else None
             gr = grain.grain(ubi, translation=tr)
             if g["hasnm"]:
-                gr.name = g["nm"]
+                gr.name = K(g["nm"])
             if g["npks"] >= 0:
-                gr.npks = g["npks"]
+                gr.npks = K(g["npks"])
             if g["nuniq"] >= 0:
-                gr.nuniq = g["nuniq"]
+                gr.nuniq = K(g["nuniq"])
             if g.get("ii"):
-                gr.intensity_info = g["ii"]
+                gr.intensity_info = K(g["ii"])
             out.append(gr)
         return out
     if family == "sparse":
@@ -470,7 +525,7 @@ def build_obj(x, family, vals=None, coldt=None, spdt=None):
                              np.float64).astype(np.dtype(spdt["f"]))
             meta = None
             if p["hasmeta"]:
-                meta = {k: _pyval(tv, None, None) for k, tv in D(p["meta"]).items()}
+                meta = {k: K(_pyval(tv, None, None)) for k, tv in D(p["meta"]).items()}
             spf.set_pixels(n, a, meta)
         return spf
     raise ValueError(family)
@@ -495,10 +550,13 @@ class Runner(object):
         self.root = root
         self.variant = variant % 2          # API route variant (open h5py.File / loadparameters)
         self.spdt = SPARSE_DTYPES[variant % len(SPARSE_DTYPES)]
+        self.pk = PAR_KINDS[(variant // 4) % len(PAR_KINDS)]     # value kind of the parameter-like values
+        self.nkinded = [0]
         os.makedirs(root)
         self.paths = {p: os.path.join(root, p + ".dat") for p in paths}
         self.textkind = {}
-        self.mem = {o: build_obj(x, family, vals, (lambda t, _o=o: coldt(_o, t)) if coldt else None, self.spdt)
+        self.mem = {o: build_obj(x, family, vals, (lambda t, _o=o: coldt(_o, t)) if coldt else None, self.spdt,
+                                 pk=self.pk, count=self.nkinded)
                     for o, x in seeds_raw.items()}
         self.res = "ok"
         self.exc = None
@@ -540,11 +598,12 @@ class Runner(object):
                 "mem": {o: observe_obj(x, self.family) for o, x in self.mem.items()},
                 "res": self.res}
 
-    def step(self, a):
+    def step(self, a, exp=None):
+        """exp: the raw model world after the step (used by the environment action Nudge only)"""
         self.exc = None
         try:
             with contextlib.redirect_stdout(_DEVNULL):      # the readers print progress messages
-                self._do(a)
+                self._do(a, exp)
             self.res = "ok"
         except Exception as e:      # the model only says "err"; the type is kept for the report
             self.res = "err"
@@ -552,7 +611,7 @@ class Runner(object):
         if self.res == "err":
             gc.collect()            # writers leave h5py.File objects open on their error paths
 
-    def _do(self, a):
+    def _do(self, a, exp=None):
         from ImageD11 import columnfile, parameters, grain, indexing, sparseframe
         import h5py
         op, o, g = a["op"], a["o"], a["g"]
@@ -595,6 +654,16 @@ class Runner(object):
             msk = np.ones(m[o].nrows, bool)
             msk[-1] = False
             m[o].filter(msk)
+        elif op == "Nudge":
+            # the user's edit of the object in memory (not code under test): the columns take, in place and
+            # with their dtype, the values the model gives them (Storage.tla NudgeV / NudgeI)
+            if exp is None:
+                raise RuntimeError("Nudge needs the model's world")
+            x = exp["mem"][o]
+            for t in m[o].titles:
+                col = m[o].getcolumn(t)
+                vals = D(x["cols"])[t]
+                col[:] = [vint(v) if col.dtype.kind in "iu" else vfloat(v) for v in vals]
         elif op == "SavePars":
             m[o].saveparameters(path)
         elif op == "LoadFresh":
@@ -637,7 +706,7 @@ class Runner(object):
 
 FAMILY_OF_OP = {}
 for _f, _ops in {"table": ["WriteText", "ReadText", "WriteHdf", "WriteHdfObj", "ReadHdf", "ReadAuto", "ReadMmap", "DropRow",
-                           "ConvHdf"],
+                           "ConvHdf", "Nudge"],
                  "pars": ["SavePars", "LoadFresh", "LoadInto"],
                  "grains": ["WriteGrains", "ReadGrains", "WriteUbis", "ReadUbis", "WriteGrainsH5", "ReadGrainsH5",
                             "PutGrainH5", "Reverse"],
@@ -674,13 +743,13 @@ def replay(family, hist, seeds_raw, expA, expF, root, variant=0, relations=None,
     returns dict(okA, okF, firstA, firstF, nsteps, exc=[...])"""
     r = Runner(family, root, seeds_raw, variant, paths=sorted(expA[0]["fs"]))
     out = {"okA": True, "okF": True, "firstA": None, "firstF": None, "sigA": None, "sigF": None,
-           "exc": [], "steps": 0, "order_dev": 0, "checks": 0}
+           "exc": [], "steps": 0, "order_dev": 0, "checks": 0, "pk": r.pk, "nkinded": r.nkinded[0]}
     nchecks = [0]
     prev = None
     try:
         for i in range(len(hist)):
             if i > 0:
-                r.step(hist[i])
+                r.step(hist[i], expF[i])
                 out["exc"].append(r.exc)
             real = r.observe()
             if relations is not None and i > 0:
